@@ -91,6 +91,7 @@ fn body(fen: &str, ks: &[usize], gos: usize) {
             let cmd = ["go", "wtime", "100000", "btime", "100000"];
             let mut boards: Vec<board::BoardState> = Vec::new();
             for g in 0..gos {
+                sched::ctx().current_go.store(g, std::sync::atomic::Ordering::SeqCst);
                 let start = std::time::Instant::now() + std::time::Duration::from_secs(g as u64); // distinct key per go
                 let r = std::panic::catch_unwind(std::panic::AssertUnwindSafe(|| uci::verif_find_and_play_best_move(&cmd, &mut board, start, &mut table)));
                 match r {
